@@ -70,6 +70,14 @@ CLAIMED["C11"] = (
     "of update_initial_state is checked for symbolic max_history_length and number of updates.",
     "programs of <= 2 (quick) / 3 (thorough) operations; symbolic motions, states, query points and time steps; the network "
     "has 3-4 axis-parallel lanelets; cached lanelet distances are compared after translations only", "2/C11")
+CLAIMED["C12"] = (
+    "For 41 scenario-element classes two instances are built through the public constructors from symbolic scalar attributes; "
+    "the real __eq__/__hash__ code runs on them and z3 decides reflexivity, equality with a deep copy, symmetry, equality of "
+    "attribute-wise equal instances (id collections inserted in both orders), inequality under every single-attribute "
+    "perturbation (> 1e-10 for reals), equality of the hashed tuples of equal objects, and that hash() does not raise (also "
+    "for default optional arguments).",
+    "hash()/frozenset shadowed by structural keys; np.array2string idealised as injective on the rounded entries (numpy's "
+    "scientific-notation regime is outside); discrete attributes varied one at a time; floats as reals", "2/C12")
 NOT_YET = {}
 
 props = [json.loads(l) for l in open(os.path.join(ROOT, "properties.jsonl"))]
